@@ -250,6 +250,8 @@ func checkImports(t *FileTruth, src string) []ImportProblem {
 			for _, sp := range byPath[p] {
 				if sp.name != "_" {
 					add("C06", "local-imported", fmt.Sprintf("local path %q is imported", p))
+					// (also C04: the block lists a path although no NON-LOCAL identifier was rendered for it)
+					add("C04", "local-imported", fmt.Sprintf("the import block lists the File's own path %q", p))
 				}
 			}
 		case t.isDot(p):
